@@ -279,4 +279,38 @@ func suiteMerge(c *Ctx) {
 			}
 		}
 	}
+	// single-key requests answered with replies that sit next to the ones the server decoder singles
+	// out (a status that begins with OK / PONG but is longer, errors that begin like MOVED / ASK /
+	// NOAUTH without being them, values that look like other types): the reply must pass unchanged.
+	// Error lines that BEGIN with "-MOVED" or "-ASK" are redirects for the server decoder whatever
+	// follows ("-MOVEDX ..", "-ASKING": prefix test without the separating space, modelled as such
+	// in Model/ServerCodec.v and run in the sdecode suite); like the generated values above they are
+	// not part of this suite, whose model has no redirects (the loop suite has them).
+	edge := []string{"+OK\r\n", "+OKAY\r\n", "+OK 3 fields updated\r\n", "+OK \r\n", "+OKOK\r\n", "+ok\r\n", "+O\r\n", "+\r\n",
+		"+PONG\r\n", "+PONGX\r\n", "+PONG 1\r\n", "+QUEUED\r\n", "+Background saving started\r\n",
+		"-ERR MOVED 1 a:1\r\n", "-ERR ASK 1 a:1\r\n", "-MOVE\r\n", "-AS\r\n", "-NOAUTHX\r\n", "-ERR\r\n", "-\r\n",
+		":0\r\n", ":-1\r\n", ":9223372036854775807\r\n", "$-1\r\n", "*-1\r\n", "$0\r\n\r\n", "*0\r\n",
+		"$5\r\n+OKAY\r\n", "$4\r\n+OK\r\r\n", "$3\r\n+OK\r\n", "*1\r\n+OK\r\n", "*2\r\n+OKAY\r\n$-1\r\n", "*1\r\n*1\r\n+OK x\r\n"}
+	reqs := [][]string{{"get", "k"}, {"set", "k", "v"}, {"eval", "return 1", "1", "k"}, {"hgetall", "k"}, {"mget", "k"}, {"del", "k"}, {"mset", "k", "v"}}
+	for _, q := range reqs {
+		var args [][]byte
+		for _, a := range q {
+			args = append(args, []byte(a))
+		}
+		req := reqgen.Enc(args)
+		for _, e := range edge {
+			if (q[0] == "mget" || q[0] == "del" || q[0] == "mset") && c.Quick() && e[0] != '+' {
+				// the split commands have a reply shape of their own; in the quick tier only the status lines
+				continue
+			}
+			if q[0] == "mset" && strings.HasPrefix(e, "+OK") && e != "+OK\r\n" {
+				// no node answers MSET with a status that merely begins with OK; the server decoder takes
+				// the prefix for the acknowledgement (Model/ServerCodec.v), the oracle's convention
+				// "anything but +OK is a failed fragment" does not speak about such replies
+				continue
+			}
+			reps := []mreply{{hashkit.Hash("k"), []byte(e)}}
+			emit(1<<20, req, reps, []int{0}, q[0], "reply-edge", "frags-1x")
+		}
+	}
 }
